@@ -434,15 +434,33 @@ Proof.
   - intros H. right. apply IH. exact H.
 Qed.
 
+Definition nh_addr_ok_or_unsplit (a : bytes) : Prop := nh_addr_ok a = true \/ nh_split_host_port a = None.
+
 Lemma nh_range_ports_ok addrs diff maxn :
-  Forall (fun a => nh_addr_ok a = true) addrs -> 0 <= diff -> Forall nh_range_ok (nh_range_ports addrs diff maxn).
+  Forall nh_addr_ok_or_unsplit addrs -> 0 <= diff -> Forall nh_range_ok (nh_range_ports addrs diff maxn).
 Proof.
   intros Ha Hd. unfold nh_range_ports. destruct (maxn <=? 0) eqn:Em; [constructor|].
   destruct (nh_last addrs) as [a|] eqn:El; [|constructor].
-  apply nh_last_in in El. rewrite Forall_forall in Ha. specialize (Ha _ El). unfold nh_addr_ok in Ha.
+  apply nh_last_in in El. rewrite Forall_forall in Ha. specialize (Ha _ El). unfold nh_addr_ok_or_unsplit, nh_addr_ok in Ha.
   destruct (nh_split_host_port a) as [[ip p]|]; [|constructor].
+  destruct Ha as [Ha|Ha]; [|discriminate Ha].
   destruct (nh_atoi p) as [n|]; [|constructor].
   constructor; [|constructor]. unfold nh_range_ok, nh_range_from_of, nh_range_to_of. cbn. lia.
+Qed.
+
+Lemma nh_compact_forall (P : bytes -> Prop) l : Forall P l -> Forall P (nh_compact l).
+Proof.
+  induction l as [|x r IH]; intros H; [constructor|]. inversion H as [|? ? Hx Hr]; subst. cbn.
+  destruct r as [|y r']; [constructor; [assumption|constructor]|].
+  destruct (bytes_eqb x y); [apply IH; assumption|constructor; [assumption|apply IH; assumption]].
+Qed.
+
+Lemma nh_after_compact_ok l :
+  Forall (fun a => nh_addr_ok a = true) l -> Forall nh_addr_ok_or_unsplit (nh_after_compact l).
+Proof.
+  intros H. unfold nh_after_compact. apply Forall_app. split.
+  - apply nh_compact_forall. eapply Forall_impl; [|exact H]. intros a Ha. now left.
+  - apply Forall_forall. intros a Ha. apply repeat_spec in Ha. subst a. right. reflexivity.
 Qed.
 
 (* ------------------------------------------------------------------ *)
@@ -494,8 +512,8 @@ Section Analysis.
     pose proof (nh_classify_inl _ _ _ Ev) as [Lv [Fv [Dv _]]].
     unfold nh_instruction_pair; cbn. repeat split; try reflexivity; try assumption.
     - apply nh_compl_roles. exact Hc.
-    - now apply nh_range_ports_ok.
-    - now apply nh_range_ports_ok.
+    - apply nh_range_ports_ok; [now apply nh_after_compact_ok|assumption].
+    - apply nh_range_ports_ok; [now apply nh_after_compact_ok|assumption].
     - apply Forall_app. split; assumption.
     - exists cf, vf. split; [exact Ec|]. split; [exact Ev|]. exact Hrule.
   Qed.
